@@ -31,7 +31,7 @@ CHECKS["C18"] = dict(
           "independent SipHash-2-4 (every length 0..1100 at least once, random and extreme keys, 7-bit / random / 0x00 / 0x80 / 0xff contents), plus "
           "generated NOP_TABLE_NS tables, NOP_INTERFACE/NOP_INTERFACE32 interfaces with NOP_METHOD selectors and constexpr literals whose "
           "compile-time constants are emitted into the binary and compared with run-time evaluation, the reference, and the hash field parsed "
-          "from the table's encoding. distinct = distinct hash of (bytes, keys) / name; non-trivial = non-empty input."),
+          "from the table's encoding. Curated method names whose truncated selector is 0, 1, 0x7fffffff, 0x80000000, 0xffffffff (found by an offline search); byte containers whose size() is int / unsigned / uint16_t / uint8_t. distinct = distinct hash of (bytes, keys) / name; non-trivial = non-empty input."),
     floor={"quick": 5000, "thorough": 200000},
     require_counters=["c18_runtime_cases", "c18_table_names", "c18_method_selectors", "c18_constexpr_literals", "c18_len_gt_255", "c18_selectors_at_the_edges_of_the_32bit_range", "c18_user_containers_with_narrow_size_types"],
     technique="runtime differential oracle (independent SipHash-2-4) + compile-time-constant emission, under ASan/UBSan",
@@ -48,7 +48,7 @@ CHECKS["C20"] = dict(
           "pattern with an independent memcpy byte reversal selected by a run-time endianness probe. 8/16-bit: all values; 32-bit: 2^24 strided "
           "values per type (quick) or all 2^32 bit patterns (thorough); all widths >= 32: every byte-lane value, walking ones/zeros, boundaries, NaN classes; "
           "64-bit: 2^20 / 2^26 random incl. NaN payloads. Also every distinct integral type of the ABI (long long, unsigned long long, char, wchar_t, char16_t, char32_t), and the "
-          "same conversions compiled in a lean translation unit that includes the library header first (include-order independence), and conversions made during static initialisation by an early-initialised global of another translation unit. Also the conversions compiled in a translation unit built with NDEBUG (release build of a header-only library), and namespace-scope / function-local static const objects initialised with constant arguments (where the compiler may evaluate the conversion itself). distinct = enumerated values (disjoint by construction) + hashed patterns; "
+          "same conversions compiled in a lean translation unit that includes the library header first (include-order independence), and conversions made during static initialisation by an early-initialised global of another translation unit. Also the conversions compiled in a translation unit built with NDEBUG (release build of a header-only library), and namespace-scope / function-local static const objects initialised with constant arguments (where the compiler may evaluate the conversion itself). bool and the cv-qualified floating-point types (const float, volatile float, const double, const volatile double). distinct = enumerated values (disjoint by construction) + hashed patterns; "
           "non-trivial = byte reversal changes the value."),
     floor={"quick": 100000, "thorough": 1000000},
     require_counters=["c20_values_checked", "c20_lean_translation_unit_values", "c20_static_initialisation_values", "c20_values_converted_in_an_NDEBUG_translation_unit", "c20_constants_the_compiler_may_fold", "c20_values_through_cv_qualified_types_and_bool"],
@@ -105,7 +105,7 @@ _codec_check(
     "API-form stage: seven hand-written types through every documented form - Serializer<W> with an internal writer (incl. take() and move construction), Serializer<W*>, Serializer<unique_ptr<W>>, the three Deserializer forms, "
     "Protocol<T>::Write/Read on each - must emit the reference bytes, read the sequence back and end exactly after it. Half of the sequences are followed by more data (a sentinel that must read back), half end the stream; on every other reader kind the values of a sequence are read into one reused object. "
     "Fault stage: FdWriter / FdReader on a blocking pipe with a 4 KiB kernel buffer, a slow peer thread and a signal storm without SA_RESTART on the calling thread (partial and EINTR system calls) must transfer exactly the encoding. distinct = hash(type, bytes); non-trivial = encoding of 2+ bytes.",
-    {"quick": 3000, "thorough": 30000}, ["c01_values", "c01_sequences", "c01_reader_FdReader", "c01_reader_BoundedReader<Chunked>", "c01_writer_ConstexprBufferWriter", "c01_oversize_logical_buffer_writes", "cases_on_unbounded_buffer_types", "forms_writer_form_runs", "forms_reader_form_runs", "c01_sequences_ending_the_stream", "c01_sequences_read_into_one_object", "fd_storm_writes", "fd_storm_reads", "fd_storm_signals_delivered"],
+    {"quick": 3000, "thorough": 30000}, ["c01_values", "c01_sequences", "c01_reader_FdReader", "c01_reader_BoundedReader<Chunked>", "c01_writer_ConstexprBufferWriter", "c01_oversize_logical_buffer_writes", "cases_on_unbounded_buffer_types", "forms_writer_form_runs", "forms_reader_form_runs", "c01_sequences_ending_the_stream", "c01_sequences_read_into_one_object", "fd_storm_writes", "fd_storm_reads", "fd_storm_signals_delivered", "release_build_forms_writer_form_runs"],
     "exploration: 10^4-10^5 generated (type, value-sequence) cases, each decided exactly (value tree equality, exact consumed length) on every shipped writer x reader kind, with ASan/UBSan watching the same executions. Types, values and pairings are unbounded sets; sampling with exact per-case oracles is the level this technique reaches.",
     "trusts the independent reflection (vlib/reflect.h + generated Reflect specialisations) to read/write C++ objects faithfully; pairings are exercised per kind through identical bytes rather than as a literal cross product",
     "runtime round-trip oracle on every shipped reader/writer kind under ASan/UBSan, generated type corpus", second_build=_release("forms:*", "asan"))
@@ -164,7 +164,7 @@ _codec_check(
     "capacity 0..GetSize+1 (values <= 300 bytes; selected capacities beyond) on BufferWriter, PedanticBufferWriter, ConstexprBufferWriter, a capacity-checked LogWriter and BoundedWriter over each, "
     "both into a fresh writer and as the second value after another one, and for BoundedWriter also with a generous bound over a wrapped writer that has the capacity under test: room >= GetSize must succeed with the reference bytes, room < GetSize must return WriteLimitReached and write nothing "
     "beyond the room (exact-size allocations under ASan). One case drives aggregate sizes >= 2^32 through reference_wrapper aliasing and a counting writer.",
-    {"quick": 100000, "thorough": 1000000}, ["c06_capacity_writes", "c06_second_value_writes", "c06_huge_aggregate_cases", "c06_table_framings_parsed", "c06_writer_BufferWriter", "forms_short_capacity_writes", "cases_on_unbounded_buffer_types", "c06_bounded_writes_limited_by_the_wrapped_writer"],
+    {"quick": 100000, "thorough": 1000000}, ["c06_capacity_writes", "c06_second_value_writes", "c06_huge_aggregate_cases", "c06_table_framings_parsed", "c06_writer_BufferWriter", "forms_short_capacity_writes", "cases_on_unbounded_buffer_types", "c06_bounded_writes_limited_by_the_wrapped_writer", "c06_writes_after_a_refused_write"],
     "exploration with exhaustive capacity sweeps per value: each generated value is written into every capacity from 0 to GetSize+1 on every bounded writer kind; types and values are sampled.",
     "BufferWriter is unchecked by design: safety is decided by ASan on exactly-sized allocations",
     "capacity sweep with status/size oracle under ASan on exact-size buffers")
@@ -177,7 +177,7 @@ _codec_check(
     "RPC layer: every writer call of three requests through SimpleMethodSender (value-returning and void methods) and every reader call of the reply; every reader call of the request and every writer call of the "
     "reply in the dispatcher with lambda and member-function bindings: error returned unchanged, no further calls, no reply read after a failed send, no handler / reply after a failed request read. "
     "API forms: the same fail-at-k sweep through Serializer<LogWriter> / <LogWriter*> / <unique_ptr<LogWriter>>, the three Deserializer forms and Protocol<T>::Write/Read. Writer/reader shapes: classes whose Prepare / Ensure is overloaded, a template, has a defaulted extra parameter, is inherited, const, or exposed by a using-declaration must see the same call sequence as a plain writer/reader (Prepare first, with the encoded size), the same fail-at-k behaviour, and nothing written after a refusing Prepare.",
-    {"quick": 50000, "thorough": 500000}, ["c10_write_faults", "c10_read_faults", "c10_rpc_sender_write_faults", "c10_rpc_sender_read_faults", "c10_rpc_dispatch_read_faults", "c10_rpc_dispatch_write_faults", "c10_fault_at_Prepare_w", "c10_fault_at_Ensure_r", "c10_fault_at_Skip_r", "c10_fault_at_PushHandle_w", "c10_fault_at_GetHandle_r", "forms_write_faults", "forms_read_faults", "c10_values_above_64KiB", "forms_writer_shapes_written", "forms_writer_shape_faults", "forms_writer_shape_refusals", "forms_reader_shapes_read", "forms_reader_shape_faults"],
+    {"quick": 50000, "thorough": 500000}, ["c10_write_faults", "c10_read_faults", "c10_rpc_sender_write_faults", "c10_rpc_sender_read_faults", "c10_rpc_dispatch_read_faults", "c10_rpc_dispatch_write_faults", "c10_fault_at_Prepare_w", "c10_fault_at_Ensure_r", "c10_fault_at_Skip_r", "c10_fault_at_PushHandle_w", "c10_fault_at_GetHandle_r", "forms_write_faults", "forms_read_faults", "c10_values_above_64KiB", "forms_writer_shapes_written", "forms_writer_shape_faults", "forms_writer_shape_refusals", "forms_reader_shapes_read", "forms_reader_shape_faults", "release_build_forms_write_faults"],
     "fault enumeration: for each generated value every primitive-call index is failed with every error code (exhaustive in k per value); types and values are sampled.",
     "the instrumented LogReader/LogWriter implement the documented Reader/Writer interface",
     "exhaustive fail-at-k injection through instrumented reader/writer with call-log oracle", second_build=_release("forms:*", "asan"))
@@ -188,7 +188,7 @@ _codec_check(
     "residue of a read that failed at a random cut (with and without a prior assignment). The reader kind rotates with the case over Pedantic, Buffer, Stream, chunked non-seekable Stream, Fd and Bounded readers "
     "(arbitrary byte strings only on readers that bound the input themselves). Oracle: status and decoded value tree equal to a decode into a fresh object; ASan/LSan report leaks or "
     "double destruction of element objects. distinct = hash(type, bytes, prior value, prior kind); non-trivial = prior state is not default.",
-    {"quick": 20000, "thorough": 200000}, ["c11_prior_state_decodes", "c11_prior_kind_3", "c11_invalid_incoming", "c11_reader_StreamReader<stringstream>", "c11_reader_FdReader", "c11_reader_BufferReader", "c11_values_above_64KiB"],
+    {"quick": 20000, "thorough": 200000}, ["c11_prior_state_decodes", "c11_prior_kind_3", "c11_invalid_incoming", "c11_reader_StreamReader<stringstream>", "c11_reader_FdReader", "c11_reader_BufferReader", "c11_values_above_64KiB", "c11_prior_states_with_out_of_range_size_member"],
     "exploration: 10^4-10^6 (prior, incoming) pairs per run each decided exactly by comparison with a fresh decode; histories producing the prior state are sampled from four families.",
     "element lifetimes are monitored by ASan/LSan on the containers' own allocations",
     "differential decode (prior-state object vs fresh object) under ASan/LSan")
@@ -214,8 +214,8 @@ CHECKS["C12"] = dict(
           "constructor that throws on its n-th construction. After every operation a shadow model {index, value} is compared through index/empty/Visit/get<T>/get<I>/is<T> and a lifetime registry is audited "
           "(live elements = non-empty tracked alternatives, no double destruction, no use of a dead object, nothing alive at the end). Exhaustive: every history of length <= 3 (quick) / 4 (thorough) over the "
           "98-operation alphabet; then random histories of length <= 40. Special scenarios: every constructor form (default, EmptyVariant, copy/move from empty and non-empty, converting copy/move from an empty and non-empty "
-          "Variant<Other...>, single-alternative Variants incl. swap and vector growth) placement-constructed into storage pre-filled with five byte patterns, so an uninitialised member shows as a wrong index()/Visit; a 130-alternative Variant at alternatives 0, 1, 63, 64, 126..129 (Become, copy, move, assign, get, Visit); an alternative that is a union type with a destructor. Become(i, args...) from every state to every index incl. out-of-range, with a bool alternative next to pointer-constructible ones; get<T>()/is<T>() with T spelled with another cv-qualification than declared. distinct = enumerated histories + hashed random ones; non-trivial = 2+ operations."),
-    floor={"quick": 100000, "thorough": 1000000}, require_counters=["c12_operations_executed", "c12_injected_constructor_exceptions", "c12_random_histories", "c12_special_scenarios", "second_compiler_c12_special_scenarios"],
+          "Variant<Other...>, single-alternative Variants incl. swap and vector growth) placement-constructed into storage pre-filled with five byte patterns, so an uninitialised member shows as a wrong index()/Visit; a 130-alternative Variant at alternatives 0, 1, 63, 64, 126..129 (Become, copy, move, assign, get, Visit); an alternative that is a union type with a destructor. Become(i, args...) from every state to every index incl. out-of-range, with a bool alternative next to pointer-constructible ones; get<T>()/is<T>() with T spelled with another cv-qualification than declared. Assignment from the Variant's own element; copies of Variants with a bool alternative. The special scenarios are repeated in a g++ build and in a release build (g++ -O2 -DNDEBUG). distinct = enumerated histories + hashed random ones; non-trivial = 2+ operations."),
+    floor={"quick": 100000, "thorough": 1000000}, require_counters=["c12_operations_executed", "c12_injected_constructor_exceptions", "c12_random_histories", "c12_special_scenarios", "second_compiler_c12_special_scenarios", "release_build_c12_special_scenarios"],
     technique="shadow-model interpreter + lifetime registry over bounded-exhaustive and random operation histories, under ASan/UBSan",
     level_text="exploration with an exhaustive core: all operation histories up to length 3/4 over a 98-operation alphabet are enumerated and each step is decided exactly against a shadow model and a lifetime registry; longer histories are sampled.",
     level_note="element lifetime is observed through tracked element types (registry of live addresses + magic word); ASan watches the same executions",
@@ -231,7 +231,7 @@ CHECKS["C13"] = dict(
           "Messages: all 19 ErrorStatus enumerators through Status<void> and Status<int>. "
           "Special scenarios: every constructor form of Optional/Entry/Result/Status in pattern-filled storage; a throwing element constructor at the 1st..3rd construction inside each of 14 assigning operations on empty and engaged destinations: "
           "afterwards each object is empty or holds one alive value and the registry balances; decoding (Deserializer) into Optional<Optional<T>>, Optional<T>, Result<E,T> and table entries with tracked serializable elements from four prior states incl. NIL/error over a value and a truncated encoding."),
-    floor={"quick": 100000, "thorough": 1000000}, require_counters=["c13_operations_executed", "c13_comparisons", "c13_error_messages", "c13_random_histories", "c13_special_scenarios", "c13_injected_constructor_exceptions", "second_compiler_c13_special_scenarios"],
+    floor={"quick": 100000, "thorough": 1000000}, require_counters=["c13_operations_executed", "c13_comparisons", "c13_error_messages", "c13_random_histories", "c13_special_scenarios", "c13_injected_constructor_exceptions", "second_compiler_c13_special_scenarios", "c13_pointer_comparisons", "release_build_c13_special_scenarios"],
     technique="shadow-model interpreter + lifetime registry over bounded-exhaustive and random histories; exhaustive operand-state table for the 18 comparison operators",
     level_text="exploration with an exhaustive core: all histories up to length 3/4 over a 77-operation alphabet, all operand-state pairs of every comparison operator, all ErrorStatus values; longer histories sampled.",
     level_note="state after move *construction* is read back, not asserted (the property constrains move assignment only)",
@@ -245,7 +245,7 @@ CHECKS["C15"] = dict(
           "the values round-trip; a corrupted type tag gives UnexpectedHandleType, a tag differing in any single bit (also above the width of a narrow tag type) is rejected without calling GetHandle; a resolver error is returned unchanged. (b) ownership: every history of length <= 4/5 over 3 UniqueHandles with a counting policy "
           "(construct, move-assign incl. self, move-construct, release, close, destroy, assign temporary / empty), random to length 40: each resource closed exactly once when its owner drops it, never after "
           "release or while still owned; real descriptors through UniqueFileHandle checked with fcntl, incl. descriptor 0 in a forked child whose stdin is closed, and an interposed close() that reports EINTR after releasing the descriptor (no second close of that number)."),
-    floor={"quick": 100000, "thorough": 1000000}, require_counters=["c15_operations_executed", "c15_handles_pushed", "c15_values_read_back", "c15_corrupted_tags", "c15_resolver_errors_injected", "c15_real_fd_cases", "c15_fd0_child_cases", "c15_interrupted_close_cases", "c15_file_handles_moved_into_their_base_class"],
+    floor={"quick": 100000, "thorough": 1000000}, require_counters=["c15_operations_executed", "c15_handles_pushed", "c15_values_read_back", "c15_corrupted_tags", "c15_resolver_errors_injected", "c15_real_fd_cases", "c15_fd0_child_cases", "c15_interrupted_close_cases", "c15_file_handles_moved_into_their_base_class", "c15_tags_of_other_policies"],
     technique="call-log oracle on instrumented reader/writer + counting handle policy over bounded-exhaustive ownership histories, under ASan/UBSan",
     level_text="exploration with an exhaustive core: all ownership histories up to length 4/5 over a 30-operation alphabet; handle-bearing values, returned references and corruptions are sampled and each case decided exactly from the call logs.",
     level_note="handle-capable readers/writers shipped with libnop do not exist; the documented PushHandle/GetHandle interface is implemented by the harness' LogWriter/LogReader",
@@ -289,7 +289,7 @@ CHECKS["C17"] = dict(
           "constexpr Prepare/Write/Skip sequences on ConstexprBufferWriter with the model and with their own run-time evaluation. Fault stage: Write sequences with blocks up to 96 KiB through FdWriter into a blocking pipe (4 KiB buffer, "
           "slow peer, signal storm without SA_RESTART) and the same bytes back through FdReader from a slowly fed pipe under the storm must equal the model stream, with no call refused. Exhaustive to length 2 (quick) / 3 (thorough), random to length 10."),
     floor={"quick": 100000, "thorough": 1000000},
-    require_counters=["c17_reader_calls", "c17_writer_calls", "c17_constexpr_vs_runtime_comparisons", "c17_constexpr_sequences", "c17_reader_FdReader", "c17_writer_ConstexprBufferWriter", "c17_reader_StreamReader<chunked non-seekable>", "c17_fd_storm_writer_sequences", "c17_fd_storm_reader_sequences", "c17_fd_storm_signals_delivered", "c17_bounded_writer_over_tighter_writer_sequences", "c17_writer_calls_after_a_refusal_follow"],
+    require_counters=["c17_reader_calls", "c17_writer_calls", "c17_constexpr_vs_runtime_comparisons", "c17_constexpr_sequences", "c17_reader_FdReader", "c17_writer_ConstexprBufferWriter", "c17_reader_StreamReader<chunked non-seekable>", "c17_fd_storm_writer_sequences", "c17_fd_storm_reader_sequences", "c17_fd_storm_signals_delivered", "c17_bounded_writer_over_tighter_writer_sequences", "c17_writer_calls_after_a_refusal_follow", "c17_stream_writer_calls_on_a_sink_that_fills_up", "c17_fd_writer_calls_on_dev_full"],
     technique="differential execution of every shipped reader/writer against an executable byte-source/byte-sink model; compile-time constants emitted into the binary",
     level_text="exploration with an exhaustive core: all call sequences up to length 2/3 over the relative-size alphabet on every reader and writer kind and every source length / capacity in the grid; longer sequences and compile-time values are sampled.",
     level_note="equivalence is required up to and including the first failing call, as the property states; the unchecked BufferWriter is only driven within its capacity",
@@ -315,7 +315,7 @@ CHECKS["C07"] = dict(
           "entries (quick: 3 pools x 10 versions, thorough: 8 pools x 24 versions per seed), each emitted in four contexts: top level, inside a structure followed by more data, inside a vector, inside an entry of another table. "
           "case = (writer version, reader version, context, assignment of empty/non-empty to the writer's entries, values fitting every fungible alternative): all ordered pairs of versions of a pool are executed; low case "
           "indices sweep the assignments in order. Oracle = projection model (entry active and non-empty in the writer and active in the reader carries its value tree; everything else empty) on 6 readers incl. a non-seekable "
-          "stream and BoundedReader; reader position = end of the encoding; a trailing sentinel reads back; half of the reads go into an object already holding other entries. Half of the tables are the last thing on the stream (the reader ends exactly after the table, no sentinel), half are followed by more data; entry types include arrays and vectors of enums, strings and wider integers. Result<E,void> and Status<void>: copy/move construction and assignment, error assignment, clear, self-assignment, swap and vector growth over every pair of states. Histories include handles of a class derived from UniqueHandle moved into a UniqueHandle (construction and assignment); a real UniqueFileHandle moved into UniqueHandle<FileHandlePolicy> must lead to exactly one close(2) (interposed) and none after release(). distinct = hash(pair, bytes, context)."),
+          "stream and BoundedReader; reader position = end of the encoding; a trailing sentinel reads back; half of the reads go into an object already holding other entries. Half of the tables are the last thing on the stream (the reader ends exactly after the table, no sentinel), half are followed by more data; entry types include arrays and vectors of enums, strings and wider integers. Result<E,void> and Status<void>: copy/move construction and assignment, error assignment, clear, self-assignment, swap and vector growth over every pair of states. Histories include handles of a class derived from UniqueHandle moved into a UniqueHandle (construction and assignment); a real UniqueFileHandle moved into UniqueHandle<FileHandlePolicy> must lead to exactly one close(2) (interposed) and none after release(). One pool has 66-72 entries per definition (bookkeeping per entry in a machine word ends at 32 / 64). Assignment from the object's own element; Optional of raw / shared pointers against pointers and nullptr, bool and mixed arithmetic operands. Special scenarios repeated in a g++ build and a release build. The histories are repeated with a policy derived from DefaultHandlePolicy<int,-1> (0 is a real resource); corrupted tags include the tags of other policies (0, 1) and the range ends. A StreamWriter over a stream buffer that fills up and an FdWriter on /dev/full must report the first call that does not fit. distinct = hash(pair, bytes, context)."),
     floor={"quick": 2000, "thorough": 50000}, require_counters=["c07_cross_version_reads", "c07_cases_between_different_versions", "c07_context_table{Entry<table>;u16}", "c07_context_vector<table>", "c07_tables_ending_the_stream", "c07_tables_followed_by_more_data"],
     technique="generated schema-evolution histories executed pairwise at run time against a projection model, under ASan/UBSan",
     level_text="exploration over generated programs: every ordered pair of versions of every generated pool is executed with swept empty/non-empty assignments and sampled values, each read decided exactly by the projection model.",
@@ -353,7 +353,7 @@ CHECKS["C09"] = dict(
           "width/signedness, enum/underlying, integral element vs wrapped integral element, array length, tuple arity, table id/hash/deleted marker, Optional<T>/T, map/vector<pair>, string/vector<char>, variant order, "
           "dropped member) — the trait is only observed. Constants emitted per pair: IsFungible<A,B>, <B,A>, <A,A>, <B,B>, on signatures, whether Protocol<A>::Write/Read admits B, and whether Method::Bind admits a handler written over B for a method declared over A (by const reference, by value, mixed, as return type) - all must equal IsFungible<A,B>. For every pair where the trait "
           "is true, values of A (and of B) whose element counts fit the other type are encoded, decoded as the other type through a rotating reader kind (pedantic, seekable stream, chunked non-seekable stream, bounded; value tree must be equal, all bytes consumed) and re-encoded (same bytes; modulo entry order when "
-          "an unordered_map is involved). Declared entry sizes include 2^64-1, 2^64-2, 2^64-(value size), 2^64-(offset), 2^63 and 2^32 with the bytes kept (a limit computation that wraps would accept them). distinct = hash(pair, bytes, direction)."),
+          "an unordered_map is involved). Declared entry sizes include 2^64-1, 2^64-2, 2^64-(value size), 2^64-(offset), 2^63 and 2^32 with the bytes kept (a limit computation that wraps would accept them). Declared sizes 2^16 / 2^32 / 2^48 + the real size with the bytes kept (narrow limit counters). distinct = hash(pair, bytes, direction)."),
     floor={"quick": 1000, "thorough": 20000},
     require_counters=["c09_pairs", "c09_documented_pairs", "c09_near_miss_pairs", "c09_pairs_trait_true", "c09_pairs_trait_false", "c09_cross_decodes", "c09_trait_true_pairs_wire_tested", "c09_bind_probes", "c09_reader_StreamReader<chunked non-seekable>"],
     technique="compile-time trait values emitted as constants + run-time cross-decode/re-encode oracle over generated type pairs, under ASan/UBSan",
@@ -384,7 +384,7 @@ CHECKS["C14"] = dict(
           "with only 0..11 bytes of room in the reply direction: a dispatcher that reports success must have produced one complete reply. A hand-written interface has handlers returning references into their decoded arguments; another one relays: its handlers invoke the same method on a peer node from inside the handler "
           "(nested dispatch of one method on one thread, depth 0..5) and read their own arguments afterwards."),
     floor={"quick": 3000, "thorough": 100000},
-    require_counters=["c14_calls", "c14_bound_calls_checked", "c14_unbound_calls_checked", "c14_raw_requests_valid", "c14_raw_requests_invalid", "c14_fd_transport_calls", "c14_call_sequences", "c14_reply_write_failures_injected", "c14_reference_returning_handler_calls", "c14_reentrant_dispatch_calls", "c14_interfaces_with_table_arguments_(no_fd_transport)", "c14_stream_transport_calls", "c14_raw_requests_through_BufferReader"],
+    require_counters=["c14_calls", "c14_bound_calls_checked", "c14_unbound_calls_checked", "c14_raw_requests_valid", "c14_raw_requests_invalid", "c14_fd_transport_calls", "c14_call_sequences", "c14_reply_write_failures_injected", "c14_reference_returning_handler_calls", "c14_reentrant_dispatch_calls", "c14_interfaces_with_table_arguments_(no_fd_transport)", "c14_stream_transport_calls", "c14_raw_requests_through_BufferReader", "c14_queued_requests_in_one_BufferReader"],
     technique="handler-invocation log + byte-accounting loopback transport + reference decoding of requests/replies over generated interfaces, under ASan/UBSan",
     level_text="exploration over generated programs: each generated interface is driven by sampled call sequences, a selector/argument cross product and the hostile-request catalogue; every call is decided exactly from the handler log, the byte counters and an independent decode of both directions.",
     level_note="the loopback transport is the harness' own (documented Reader/Writer interface); the out-parameter overload of Invoke (no return statement) is not used",
@@ -407,10 +407,10 @@ CHECKS["C19"] = dict(
           "readers incl. a table read by another version, writer/reader primitives incl. Skip with a thread-specific padding value on Stream/Pedantic/Constexpr/Bounded writers, Variant/Optional/Result operations, SipHash, "
           "RPC calls over a private loopback, and ThreadLocal construct/Initialize/Get/write/Clear on 6 (T, Slot) types shared by name (thread-unique values; some slots left initialised at thread exit; all nine slot-tag forms - default, ThreadLocalSlot<void,1>, ThreadLocalIndexSlot<0/1>, ThreadLocalSlot<Tag,0/1>, ThreadLocalTypeSlot<Tag> - on one value type must be nine private values; threads park at a barrier "
           "while the addresses of all live (thread, slot) pairs are audited). Random yields / sub-20us sleeps between library calls only. Monitors: ThreadSanitizer (reports de-duplicated from its log), per-thread result "
-          "digest == digest of the same work run one thread at a time, ThreadLocal assertions (first initialisation wins, fresh thread starts empty, no cross-thread / cross-slot value, Clear clears). Every raw request is also dispatched as one datagram from the shipped BufferReader with the reply going to a BufferWriter of exactly the reply size: same status, same handler run, same reply bytes, and no exception may escape the dispatcher. Readers/writers are also handed over by move (into a by-value Serializer/Deserializer or another reader/writer) with the moved-from object outliving the new owner while other threads obtain descriptors; a monitor over the process descriptor table (claims per thread, checked at hand-out and before release) reports a descriptor closed by an object that does not own it. distinct = hash(interleaving "
+          "digest == digest of the same work run one thread at a time, ThreadLocal assertions (first initialisation wins, fresh thread starts empty, no cross-thread / cross-slot value, Clear clears). Every raw request is also dispatched as one datagram from the shipped BufferReader with the reply going to a BufferWriter of exactly the reply size: same status, same handler run, same reply bytes, and no exception may escape the dispatcher. Readers/writers are also handed over by move (into a by-value Serializer/Deserializer or another reader/writer) with the moved-from object outliving the new owner while other threads obtain descriptors; a monitor over the process descriptor table (claims per thread, checked at hand-out and before release) reports a descriptor closed by an object that does not own it. A well-formed request queued twice and followed by half of a third in one BufferReader: two dispatches that each consume exactly their request and append exactly their reply, then a decode error. Every eighth round FdWriter / FdReader objects constructed by the coordinating thread (whose errno is then dirtied) are used by worker threads on 4 KiB pipes under a signal storm; the transfer must be exact. distinct = hash(interleaving "
           "signature of operation-boundary tickets, round); the number of distinct signatures observed is reported."),
     floor={"quick": 150, "thorough": 3000},
-    require_counters=["c19_rounds", "c19_threads_run", "c19_operation_boundaries", "c19_threadlocal_addresses_audited", "c19_distinct_interleaving_signatures", "c19_descriptor_claims_audited", "c19_signal_disposition_audits"],
+    require_counters=["c19_rounds", "c19_threads_run", "c19_operation_boundaries", "c19_threadlocal_addresses_audited", "c19_distinct_interleaving_signatures", "c19_descriptor_claims_audited", "c19_signal_disposition_audits", "c19_cross_thread_handoff_transfers", "c19_signals_delivered_during_handoff"],
     technique="ThreadSanitizer + sequential-equivalence digests + ThreadLocal shadow assertions over barrier-released stress rounds with injected yields",
     level_text="exploration over schedules: each round is one observed interleaving; TSan decides races on the accesses that occurred, digests decide result equivalence, the ThreadLocal monitor decides privacy per round. Absence of reports is 'no race on K rounds with S distinct interleavings', not a proof.",
     level_note="TSan only sees interleavings that occur and synchronisation it intercepts; thread-local storage of exited threads is legitimately reused, so addresses are compared among concurrently live threads only",
